@@ -7,7 +7,9 @@
    dec_to_dbl = float() of that decimal (nearest double, None beyond the largest double).
    isclose = math.isclose(., ., rel_tol=1e-9, abs_tol=0.0) as CPython evaluates it in IEEE doubles.
    is_double x = x is a finite IEEE double (53 bit significand, exponent >= -1074, |x| < 2^1024).
-   followed_ok l = the padding after the node is empty or starts with a blank string, no empty strings. *)
+   followed_ok l = the padding after the node is empty; or starts with a blank string (and holds no empty
+   string); or starts with something that is not a blank string and begins with white space, '$' or '&'
+   (a newline, a '$' comment).  A word ends at white space, '$' or '&'. *)
 From Coq Require Import List String Ascii ZArith QArith Qabs Bool.
 From MPV Require Import Model.Wire Model.Num Proofs.NumProofs.
 Import ListNotations.
@@ -92,11 +94,35 @@ Example C05_float_close_ex_precision :
     format (set_value nd (VFlt (mkD false 694995494495815 (-49)))) = Ok "1.23456 ".
 Proof.
   eexists. split; [vm_compute; reflexivity|]. split; [exact is_double_1_23456|]. split.
-  - right. exists (PStr " "), []. split; [reflexivity|]. split; [reflexivity|].
+  - right. left. exists (PStr " "), []. split; [reflexivity|]. split; [reflexivity|].
     constructor; [discriminate | constructor].
   - vm_compute. reflexivity.
 Qed.
 Print Assumptions C05_float_close_ex_precision.
+
+Example C05_float_close_ex_newline :       (* the last value of a line: the padding is the newline itself *)
+  exists nd, make_node KFloat (TText "1.5") (Some [PStr newline]) false = Ok nd /\
+    followed_ok (pad_nodes (set_value nd (VFlt (mkD false 694995494495815 (-49))))) /\
+    format (set_value nd (VFlt (mkD false 694995494495815 (-49)))) = Ok ("1.23456" ++ newline).
+Proof.
+  eexists. split; [vm_compute; reflexivity|]. split.
+  - right. right. exists (PStr newline), []. split; [reflexivity|]. split; reflexivity.
+  - vm_compute. reflexivity.
+Qed.
+Print Assumptions C05_float_close_ex_newline.
+
+Example C05_float_close_ex_comment :       (* a '$' comment directly after the value *)
+  exists nd, make_node KFloat (TText "1.5") (Some [PCom "$ c"; PStr newline]) false = Ok nd /\
+    followed_ok (pad_nodes (set_value nd (VFlt (mkD false 694995494495815 (-49))))) /\
+    written_number ("1.23456$ c" ++ newline) = Some (false, 123456, -5) /\
+    format (set_value nd (VFlt (mkD false 694995494495815 (-49)))) = Ok ("1.23456$ c" ++ newline).
+Proof.
+  eexists. split; [vm_compute; reflexivity|]. split; [|split].
+  - right. right. exists (PCom "$ c"), [PStr newline]. split; [reflexivity|]. split; reflexivity.
+  - vm_compute. reflexivity.
+  - vm_compute. reflexivity.
+Qed.
+Print Assumptions C05_float_close_ex_comment.
 
 Example C05_float_close_ex_scratch :       (* ValueNode(None, float).value = 1.23456789 *)
   exists nd, make_node KFloat TNone None false = Ok nd /\
@@ -199,6 +225,14 @@ Example C05_g_error_ex : g_body 6 (mkD false 5768499521447309 (-50)) = Ok "5.123
 Proof. vm_compute. reflexivity. Qed.
 Print Assumptions C05_g_error_ex.
 
+(* the side conditions of C05_e_error / C05_f_error hold of every formatter that
+   _reverse_engineer_formatting can produce (and of the default one of a node made from scratch) *)
+Theorem C05_reachable_formatter : forall nd f, reverse_formatting nd = Some f ->
+  exponent_length f = exponent_zero_pad f /\
+  (divider f = "" \/ divider f = "e" \/ divider f = "E") /\ 0 <= precision f.
+Proof. exact reverse_formatting_ok. Qed.
+Print Assumptions C05_reachable_formatter.
+
 (* ------------------------------------------------------------------------------------------------
    5. The int(round(value)) branch: a float within the tolerance of an integer, on an integer-looking
       token, is written as the nearest integer, digit for digit. *)
@@ -237,7 +271,7 @@ Example C05_int_exact_ex :                 (* 1000000000 <- 1000000001: ints are
     format (set_value nd (VInt 1000000001)) = Ok "1000000001 ".
 Proof.
   eexists. split; [vm_compute; reflexivity|]. split.
-  - right. exists (PStr " "), []. split; [reflexivity|]. split; [reflexivity|].
+  - right. left. exists (PStr " "), []. split; [reflexivity|]. split; [reflexivity|].
     constructor; [discriminate | constructor].
   - vm_compute. reflexivity.
 Qed.
